@@ -1,4 +1,5 @@
 import RedisVerif.Driver.C07
+import RedisVerif.Driver.C09
 import RedisVerif.Driver.C10
 import RedisVerif.Driver.C14
 
@@ -24,6 +25,7 @@ def main (args : List String) : IO UInt32 := do
   let stdout ← IO.getStdout
   match args with
   | ["C07"] => loop stdin stdout C07.step; return 0
+  | ["C09"] => loop stdin stdout C09.step; return 0
   | ["C10"] => loopState stdin stdout C10.step []; return 0
   | ["C14"] => loopState stdin stdout C14.step {}; return 0
   | _ => IO.eprintln "usage: rvdriver <property-id> < ops"; return 2
